@@ -233,6 +233,13 @@ func (c *coalescer) run() {
 			// set at this point.
 			drainReady()
 			flush()
+			// The buffer holds up to four batches, so one drainReady/flush
+			// round is not enough: keep going until it is empty, otherwise
+			// the remaining accepted messages vanish without a trace.
+			for len(c.in) > 0 {
+				drainReady()
+				flush()
+			}
 			verifhook.At("coal.run.exit", c, 0, 0)
 			return
 		case m := <-c.in:
